@@ -82,7 +82,11 @@ Definition SInv (w : world) (hi : Z) : Prop :=
   hi <= dbound (w_disk w) /\ match w_proc w with Some p => PInv p (w_disk w) hi | None => True end.
 
 Definition ev_ok (e : event) : Prop :=
-  match e with Reload start lim _ => 0 <= start /\ 0 <= lim | _ => True end.
+  match e with
+  | Reload start lim _ => 0 <= start /\ 0 <= lim
+  | ProtectFails _ | UnprotectFails _ _ => False      (* _store raising instead of dying: outside the quantifier, see C13_store_error_refuted *)
+  | _ => True
+  end.
 
 Lemma dbound_store_content p : forall d, d_seq d = Some (store_content p) -> dbound d = persisted p.
 Proof. intros d H. unfold dbound. rewrite H. reflexivity. Qed.
@@ -152,7 +156,7 @@ Lemma step_sinv w ev hi : SInv w hi -> ev_ok ev ->
   exists hi', chain hi (issued_of o) hi' /\ SInv w' hi' /\ Forall (fun v => v < MAX_SEQNO) (issued_of o).
 Proof.
   intros (Hd & Hp) Hok. unfold step. destruct (w_proc w) as [p|] eqn:Ep.
-  - destruct ev as [a|n a|r a|a| |start lim echo].
+  - destruct ev as [a|n a|r a|a| |start lim echo|a|k|r k].
     + (* Protect *)
       pose proof (nsn_step p (w_disk w) a hi Hd Hp) as Hn.
       destruct (new_sequence_number p (w_disk w) a) as [[p1 d1] [v|e|]]; cbn [issued_of].
@@ -190,7 +194,23 @@ Proof.
       exists hi. cbn [issued_of]. split; [cbn; lia|]. split; [|constructor]. split; [exact Hd|exact I].
     + (* Reload while alive: refused (lock) *)
       exists hi. cbn [issued_of]. split; [cbn; lia|]. split; [|constructor]. split; [exact Hd|]. rewrite Ep. exact Hp.
-  - destruct ev as [a|n a|r a|a| |start lim echo]; cbn [issued_of];
+    + (* Respond: the request's nonce is reused (no number taken), or an ordinary new_sequence_number *)
+      assert (Hprot : let '(w', o) := (match new_sequence_number p (w_disk w) a with
+                | (p', d', Val v) => (mkw (w_size w) (Some p') d', OIssued v)
+                | (p', d', Exn e) => (mkw (w_size w) (Some p') d', OExn e)
+                | (p', d', Died) => (mkw (w_size w) None d', ODied) end) in
+              exists hi', chain hi (issued_of o) hi' /\ SInv w' hi' /\ Forall (fun v => v < MAX_SEQNO) (issued_of o)).
+      { pose proof (nsn_step p (w_disk w) a hi Hd Hp) as Hn.
+        destruct (new_sequence_number p (w_disk w) a) as [[p1 d1] [v|e|]]; cbn [issued_of].
+        * destruct Hn as (Hv & Hmax & HP1 & Hd1 & _). exists (v + 1). destruct Hp as (Hs & _).
+          split; [cbn; lia|]. split; [split; [exact Hd1|exact HP1]|]. constructor; [exact Hmax|constructor].
+        * destruct Hn as (HP1 & Hd1 & _). exists hi. split; [cbn; lia|]. split; [split; assumption|constructor].
+        * exists hi. split; [cbn; lia|]. split; [split; [exact Hn|exact I]|constructor]. }
+      destruct (pend p) as [[n [|]]|]; [|exact Hprot|exact Hprot].
+      exists hi. cbn [issued_of]. split; [cbn; lia|]. split; [|constructor]. split; [exact Hd|exact Hp].
+    + destruct Hok.
+    + destruct Hok.
+  - destruct ev as [a|n a|r a|a| |start lim echo|a|k|r k]; cbn [issued_of];
       try (exists hi; split; [cbn; lia|]; split; [|constructor]; split; [exact Hd|]; rewrite Ep; exact I).
     (* Reload from disk: the counter restarts at the persisted bound *)
     exists hi. split; [cbn; lia|]. split; [|constructor]. cbn in Hok. destruct Hok as [H1 H2].
@@ -288,10 +308,17 @@ Proof.
   induction n as [|n IH]; intros p d a acc H; cbn [seq_loop]; [exact H|].
   pose proof (nsn_durable p d a H) as Hn. destruct (new_sequence_number p d a) as [[p1 d1] [v|e|]]; [apply IH; exact Hn|exact Hn|exact Hn].
 Qed.
+(* a _store that raises never reaches the rename: sequence.json and its durability are untouched *)
+Lemma store_fails_keeps p d k : d_seq (_store_fails p d k) = d_seq d /\ d_durable (_store_fails p d k) = d_durable d.
+Proof.
+  unfold _store_fails, store_effects.
+  assert (Hk : Z.min (Z.max k 0) 3 = 0 \/ Z.min (Z.max k 0) 3 = 1 \/ Z.min (Z.max k 0) 3 = 2 \/ Z.min (Z.max k 0) 3 = 3) by lia.
+  destruct Hk as [->|[->|[->| ->]]]; cbn; auto.
+Qed.
 Lemma step_durable w ev : d_durable (w_disk w) = true -> d_durable (w_disk (fst (step w ev))) = true.
 Proof.
   intros H. unfold step. destruct (w_proc w) as [p|].
-  - destruct ev as [a|n a|r a|a| |start lim echo]; try exact H.
+  - destruct ev as [a|n a|r a|a| |start lim echo|a|k|r k]; try exact H.
     + pose proof (nsn_durable p (w_disk w) a H) as Hn. destruct (new_sequence_number p (w_disk w) a) as [[p1 d1] [v|e|]]; exact Hn.
     + pose proof (seq_loop_durable (Z.to_nat n) p (w_disk w) a [] H) as Hn.
       destruct (seq_loop (Z.to_nat n) p (w_disk w) a []) as [[[p1 d1] l] e]. destruct e; exact Hn.
@@ -301,6 +328,14 @@ Proof.
       destruct Hst as (_ & _ & Hd). destruct died; exact (Hd H).
     + pose proof (destroy_seq p (w_disk w) a) as Hst. cbv zeta in Hst. destruct (_destroy p (w_disk w) a) as [d' died].
       destruct Hst as (_ & _ & Hd). exact (Hd H).
+    + destruct (pend p) as [[n [|]]|]; [exact H| |];
+        (pose proof (nsn_durable p (w_disk w) a H) as Hn; destruct (new_sequence_number p (w_disk w) a) as [[p1 d1] [v|e|]]; exact Hn).
+    + unfold new_sequence_number_fails. destruct (ssn p >=? MAX_SEQNO); [exact H|].
+      unfold post_seqnoincrease_fails. cbn [ssn persisted set_ssn]. destruct (ssn p + 1 >? persisted p); [|exact H].
+      cbn [fst w_disk mkw]. rewrite (proj2 (store_fails_keeps _ _ _)). exact H.
+    + unfold unprotect_fails. destruct (unprotect_request (uc p) r) as [c' o].
+      destruct (strikes (uc p) o && wpers (set_uc p c')); [|exact H].
+      cbn [fst w_disk mkw]. rewrite (proj2 (store_fails_keeps _ _ _)). exact H.
   - destruct ev; exact H.
 Qed.
 Theorem run_durable w evs : d_durable (w_disk w) = true -> d_durable (w_disk (fst (run w evs))) = true.
